@@ -1,5 +1,6 @@
 (* Scratch: C11 — parsing with a default field f is parsing without one followed by scoping the bare terms *)
 Require Import Parser ParserShape ParserLay.
+Require Export Scope.
 From Coq Require Import List String ZArith Bool Lia Arith.
 Import ListNotations.
 Close Scope string_scope.
@@ -16,30 +17,11 @@ Variable o : oracle.
 Variable f : string.
 Hypothesis f_nonempty : String.eqb f "" = false.
 
-Notation scw := (ParserLay.scw f).
-
-(* scope the operands below the root; the root itself is scoped by its consumer *)
-Fixpoint sci (e : expr) : expr :=
-  match e with
-  | E (VExp l) And (VExp r) b z => E (VExp (scw (sci l))) And (VExp (scw (sci r))) b z
-  | E (VExp l) Or (VExp r) b z => E (VExp (scw (sci l))) Or (VExp (scw (sci r))) b z
-  | E (VExp x) Not VNil b z => E (VExp (scw (sci x))) Not VNil b z
-  | E (VExp x) Must VNil b z => E (VExp (scw (sci x))) Must VNil b z
-  | E (VExp x) MustNot VNil b z => E (VExp (scw (sci x))) MustNot VNil b z
-  | E (VExp x) Boost VNil b z => E (VExp (scw (sci x))) Boost VNil b z
-  | E (VExp x) Fuzzy VNil b z => E (VExp (scw (sci x))) Fuzzy VNil b z
-  | E (VExp t) Equals (VExp v) b z => E (VExp (sci t)) Equals (VExp (sci v)) b z
-  | E (VExp t) Like (VExp v) b z => E (VExp (sci t)) Like (VExp (sci v)) b z
-  | E (VExp t) Greater (VExp v) b z => E (VExp (sci t)) Greater (VExp (sci v)) b z
-  | E (VExp t) Less (VExp v) b z => E (VExp (sci t)) Less (VExp (sci v)) b z
-  | E (VExp t) GreaterEq (VExp v) b z => E (VExp (sci t)) GreaterEq (VExp (sci v)) b z
-  | E (VExp t) LessEq (VExp v) b z => E (VExp (sci t)) LessEq (VExp (sci v)) b z
-  | E (VExp t) Tables.In r b z => E (VExp (sci t)) Tables.In r b z
-  | E (VExp t) Range (VBound (VExp x) (VExp y) i) b z => E (VExp (sci t)) Range (VBound (VExp (sci x)) (VExp (sci y)) i) b z
-  | _ => e
-  end.
-
-Definition scope (e : expr) : expr := scw (sci e).
+Notation scw := (Build.scw f).
+Notation sci := (Scope.sci f).
+Notation scope := (Scope.scope f).
+Notation clean := (Scope.clean f).
+Notation vclean := (Scope.vclean f).
 
 Definition sci_item (i : item) : item := match i with ITok t => ITok t | IExp e => IExp (sci e) end.
 
@@ -211,18 +193,6 @@ Proof.
 Qed.
 
 
-(* ---------- the default field does not otherwise occur ---------- *)
-Fixpoint clean (e : expr) : bool :=
-  match e with E l _ r _ _ => vclean l && vclean r end
-with vclean (v : value) : bool :=
-  match v with
-  | VCol s | VStr s => negb (String.eqb s f)
-  | VExp e => clean e
-  | VList l => (fix cl (l : list expr) : bool := match l with [] => true | x :: r => clean x && cl r end) l
-  | VBound a b _ => vclean a && vclean b
-  | _ => true
-  end.
-
 Lemma chained_sci : forall n v, esize v <= n -> clean v = true ->
   chained_or_literals f (sci v) = chained_or_literals ""%string v.
 Proof.
@@ -237,7 +207,7 @@ Proof.
     cbn [unwrap_df]. cbn in Hs, Hc. apply andb_true_iff in Hc. destruct Hc as [Hx Hy].
     assert (Hsub : forall w, esize w <= n -> clean w = true ->
               chained_or_literals f (scw (sci w)) = chained_or_literals ""%string w).
-    { intros w Hw Hcw. unfold ParserLay.scw. rewrite f_nonempty. rewrite sci_op.
+    { intros w Hw Hcw. unfold Build.scw. rewrite f_nonempty. rewrite sci_op.
       destruct (is_leaf_op (e_op w)) eqn:LW.
       - rewrite (sci_leaf w LW).
         rewrite (col_unfold f). unfold unwrap_df. cbn [e_left lit empty_e].
